@@ -21,6 +21,7 @@ type caseT struct {
 	WriteEnds []int    `json:"write_ends,omitempty"` // raw-stream offsets where each Write ends; empty = one Write per element
 	Cuts      []int    `json:"cuts,omitempty"`       // cut points in the carrier byte stream
 	OneByte   bool     `json:"one_byte_reads,omitempty"`
+	Fast      bool     `json:"http_fast_path,omitempty"` // HTTP tunnel: POST request not re-parsed (see Assume)
 	Trunc     int      `json:"truncate_to,omitempty"` // totality: keep this many carrier bytes (-1: all)
 	Mut       [][2]int `json:"mutations,omitempty"`   // totality: [position, byte value]
 	Limit     string   `json:"limit,omitempty"`       // limits: which limit
@@ -202,6 +203,29 @@ func (w *wire) candidates(r int, lineCRLF bool) []int {
 	return uniqSorted(c, w.lo, len(w.data)-1)
 }
 
+// innerBoundaries: for a wire whose elements were grouped into a single write, the images of the
+// element boundaries inside the carrier block (+-r).
+func (w *wire) innerBoundaries(r int) []int {
+	var c []int
+	hdr := 0
+	if w.carrier == carWSc2s || w.carrier == carWSs2c {
+		hdr = len(w.data) - len(w.raw) // one frame: header (+mask) in front of the payload (only exact for unfragmented messages)
+	}
+	p := 0
+	for _, e := range w.elemEnds {
+		p = e
+		if p >= len(w.raw) {
+			break
+		}
+		if w.carrier == carHTTP {
+			c = around(c, 4*(p/3)+2, r)
+		} else {
+			c = around(c, hdr+p, r)
+		}
+	}
+	return c
+}
+
 func allPositions(lo, n int) []int {
 	c := make([]int, 0, n)
 	for i := lo; i < n; i++ {
@@ -240,6 +264,9 @@ func errClass(err error) string {
 	s := err.Error()
 	if i := strings.Index(s, "(rtsp"); i >= 0 {
 		s = s[:i]
+	}
+	if i := strings.Index(s, "invalid URL"); i >= 0 {
+		s = "invalid URL"
 	}
 	if i := strings.Index(s, "got"); i >= 0 {
 		s = s[:i+3]
